@@ -24,37 +24,37 @@ type Snapshot struct {
 	Time   time.Time
 	Height int64
 
-	CreditTypes      []*baseapi.CreditType
-	Classes          []*baseapi.Class
-	ClassIssuers     []*baseapi.ClassIssuer
-	Projects         []*baseapi.Project
-	Batches          []*baseapi.Batch
-	ClassSeqs        []*baseapi.ClassSequence
-	ProjectSeqs      []*baseapi.ProjectSequence
-	BatchSeqs        []*baseapi.BatchSequence
-	Balances         []*baseapi.BatchBalance
-	Supplies         []*baseapi.BatchSupply
-	OriginTxs        []*baseapi.OriginTxIndex
-	Contracts        []*baseapi.BatchContract
-	Allowlist        *baseapi.ClassCreatorAllowlist
-	AllowedCreators  []*baseapi.AllowedClassCreator
-	ClassFee         *baseapi.ClassFee
-	BridgeChains     []*baseapi.AllowedBridgeChain
-	Enrollments      []*baseapi.ProjectEnrollment
-	ProjectFee       *baseapi.ProjectFee
-	Baskets          []*basketapi.Basket
-	BasketClasses    []*basketapi.BasketClass
-	BasketBalances   []*basketapi.BasketBalance
-	BasketFee        *basketapi.BasketFee
-	SellOrders       []*marketapi.SellOrder
-	AllowedDenoms    []*marketapi.AllowedDenom
-	Markets          []*marketapi.Market
-	FeeParams        *marketapi.FeeParams
-	DataIDs          []*dataapi.DataID
-	DataAnchors      []*dataapi.DataAnchor
-	DataAttestors    []*dataapi.DataAttestor
-	Resolvers        []*dataapi.Resolver
-	DataResolvers    []*dataapi.DataResolver
+	CreditTypes     []*baseapi.CreditType
+	Classes         []*baseapi.Class
+	ClassIssuers    []*baseapi.ClassIssuer
+	Projects        []*baseapi.Project
+	Batches         []*baseapi.Batch
+	ClassSeqs       []*baseapi.ClassSequence
+	ProjectSeqs     []*baseapi.ProjectSequence
+	BatchSeqs       []*baseapi.BatchSequence
+	Balances        []*baseapi.BatchBalance
+	Supplies        []*baseapi.BatchSupply
+	OriginTxs       []*baseapi.OriginTxIndex
+	Contracts       []*baseapi.BatchContract
+	Allowlist       *baseapi.ClassCreatorAllowlist
+	AllowedCreators []*baseapi.AllowedClassCreator
+	ClassFee        *baseapi.ClassFee
+	BridgeChains    []*baseapi.AllowedBridgeChain
+	Enrollments     []*baseapi.ProjectEnrollment
+	ProjectFee      *baseapi.ProjectFee
+	Baskets         []*basketapi.Basket
+	BasketClasses   []*basketapi.BasketClass
+	BasketBalances  []*basketapi.BasketBalance
+	BasketFee       *basketapi.BasketFee
+	SellOrders      []*marketapi.SellOrder
+	AllowedDenoms   []*marketapi.AllowedDenom
+	Markets         []*marketapi.Market
+	FeeParams       *marketapi.FeeParams
+	DataIDs         []*dataapi.DataID
+	DataAnchors     []*dataapi.DataAnchor
+	DataAttestors   []*dataapi.DataAttestor
+	Resolvers       []*dataapi.Resolver
+	DataResolvers   []*dataapi.DataResolver
 
 	// RawHash is the hash of all raw KV pairs + time + height (set by Snap).
 	RawHash [32]byte
